@@ -171,8 +171,7 @@ func (x *Exec) contentName(prefix string, extra string, limbs []Slice, moduli []
 			break
 		}
 		for n := 0; n < l.Len; n++ {
-			sb.WriteString(x.polyString(x.feArg(l.Obj.Cells[l.Off+n], moduli[k]).P, 1<<30))
-			sb.WriteByte(';')
+			fmt.Fprintf(&sb, "%x;", x.feArg(l.Obj.Cells[l.Off+n], moduli[k]).P.hash())
 		}
 		sb.WriteByte('|')
 	}
@@ -192,7 +191,7 @@ func (x *Exec) classOfSlice(s Slice) int {
 	for i := 0; i < s.Len; i++ {
 		if f, ok := s.Obj.Cells[s.Off+i].(*FE); ok {
 			for k := range f.P.terms {
-				for _, id := range monoIDs(k) {
+				for _, id := range monoIDs(monoStr(k)) {
 					return st.atoms[id].class
 				}
 			}
@@ -258,7 +257,7 @@ func nttStub(inverse bool, lazy uint64) feStub {
 			acc := newFEPoly(q)
 			for i := 0; i < n; i++ {
 				if m[j][i] != 0 && !in[i].P.isZero() {
-					acc = acc.add(in[i].P.scale(m[j][i]))
+					acc.addScaled(in[i].P, m[j][i])
 				}
 			}
 			x.setCell(p2.Obj, p2.Off+j, x.feReduced(acc, q, lazy))
@@ -416,7 +415,7 @@ func init() {
 		for i := 0; i < n; i++ {
 			acc := newFEPoly(q0)
 			for j := 0; j < n; j++ {
-				acc = acc.add(x.feArg(polQ[0].Obj.Cells[polQ[0].Off+j], q0).P.scale(inv[i][j]))
+				acc.addScaled(x.feArg(polQ[0].Obj.Cells[polQ[0].Off+j], q0).P, inv[i][j])
 			}
 			coeff[i] = x.feReduced(acc.scale(rinv0), q0, 1)
 		}
@@ -433,7 +432,7 @@ func init() {
 			for j := 0; j < n; j++ {
 				acc := newFEPoly(q)
 				for i := 0; i < n; i++ {
-					acc = acc.add(small[i].P.scale(fwd[j][i]))
+					acc.addScaled(small[i].P, fwd[j][i])
 				}
 				x.setCell(polP[k].Obj, polP[k].Off+j, x.feReduced(acc.scale(r), q, 1))
 			}
@@ -549,8 +548,7 @@ func init() {
 		fmt.Fprintf(&sb, "%d/%d/%d/%d|", levelQ, levelP, nbPi, i)
 		for k := i * nbPi; k < (i+1)*nbPi && k <= levelQ; k++ {
 			for n := 0; n < p0Q[k].Len; n++ {
-				sb.WriteString(x.polyString(x.feArg(p0Q[k].Obj.Cells[p0Q[k].Off+n], riQ.moduli[k]).P, 1<<30))
-				sb.WriteByte(';')
+				fmt.Fprintf(&sb, "%x;", x.feArg(p0Q[k].Obj.Cells[p0Q[k].Off+n], riQ.moduli[k]).P.hash())
 			}
 		}
 		st := x.feS()
@@ -611,7 +609,7 @@ func init() {
 				x.addObligation(&Obligation{ID: "bit-decomposition-input-reduced", Kind: "range", Cond: x.ts.False, Where: "MaskVec on a value not known to be below q"})
 			}
 			// identify the source coefficient by its polynomial
-			key := fmt.Sprintf("%d|%s", q, x.polyString(src.P, 1<<30))
+			key := fmt.Sprintf("%d|%x|%d", q, src.P.hash(), len(src.P.terms))
 			id, ok := st.decompIDs[key]
 			if !ok {
 				id = len(st.decompIDs) + 1
@@ -656,7 +654,7 @@ func (x *Exec) sameSmall(v Value, q uint64, what string) *FE {
 		}
 		if len(t.P.terms) == 1 {
 			for k, c := range t.P.terms {
-				ids := monoIDs(k)
+				ids := monoIDs(monoStr(k))
 				if len(ids) == 1 && (c == 1 || c == t.P.q-1) {
 					a := st.atoms[ids[0]]
 					if a.class == ClsSecret || a.class == ClsError || a.class == ClsRounding || a.class == ClsDigit {
